@@ -938,6 +938,10 @@ class NoMutationOracle(Observer):
                     tag=f"C12.tensor_data_modified/{what}/role={role}",
                 ):
                     return
+        if w.index_modified:
+            w.index_modified = False
+            if w.violation("C12", "C12.index_modified", f"step {w.nstep} ({what}): an index array handed to MyGrad was modified", tag=f"C12.index_modified/{what}"):
+                return
         w.probe("c12.events_checked")
         if k == "backward":
             # every array handed to backward(grad) in this run (recorded even when the call is not
